@@ -45,8 +45,11 @@ Ls == -1..(d.T + 1)
 \* in simulation mode every nondeterministic draw is a single random element (one successor per step)
 Pick(S) == IF Sim THEN {RandomElement(S)} ELSE S
 
+\* power-of-two scale of the whole history (a micrometre, a unit, a few kilometres): portions do not depend on the unit
+RootScale(rt) == << 0, -20, 12, -3 >>[((Len(rt.pts) + (IF rt.fc THEN 1 ELSE 0) + rt.tolU) % 4) + 1]
+
 Init == /\ root \in Roots /\ d = WholeRoot(Built(root.pts, 0, root.fc, 2)) /\ phase = "run"
-        /\ hist = <<[m |-> "curve", op |-> "root", pts |-> root.pts, fc |-> root.fc, sc |-> 0, tolU |-> root.tolU]>>
+        /\ hist = <<[m |-> "curve", op |-> "root", pts |-> root.pts, fc |-> root.fc, sc |-> RootScale(root), tolU |-> root.tolU]>>
 
 \* a derived curve that is closed only because an open root touches itself is left out of the histories
 Tame(nd) == nd = NoCurve \/ (DClosed(V, RC, nd) => (RC /\ nd.T = RootLen2(V)))
